@@ -203,6 +203,7 @@ func checkC19(r *Run) {
 	r.Rule("C19.R8.saturate", "a float -> integer cast saturates instead of trapping", 2)
 	r.Rule("C19.R9.signsat", "a signed <-> unsigned integer cast whose source range exceeds the target range saturates at the target's bounds", 2)
 	r.Rule("C19.R10.logic", "in the 'or'/'and' lowering every operand compile is followed by normalizeBoolean (value != 0) before the join; the short-circuit arm pushes 1 for 'or' and 0 for 'and'", 6)
+	r.Rule("C19.R13.locals", "compiler.collectLocals lists local types in the order symbol.Add numbered them (one pre-order pass), for the same set of symbol kinds", 2)
 	r.Rule("C19.R12.bound", "every local the emitted loop header and increment read is a hidden '__for_*' local or a loop variable, resolved once from the loop scope (range bounds are fixed on loop entry)", 10)
 	r.Rule("C19.R11.depth", "at every nested statement compilation the context's block depth equals the number of open emitted blocks; LoopEntry.BreakDepth names a 'block', ContinueDepth a 'block' or 'loop' strictly inside it, both read when they name the innermost open block", 12)
 
@@ -230,6 +231,123 @@ func checkC19(r *Run) {
 	c.checkLogic()
 	c.checkDepth()
 	c.checkLoopHeaderReads()
+	c.checkLocalsOrder()
+}
+
+// checkLocalsOrder decides C19.R13: symbol.Scope.Add numbers variables from one
+// per-function counter in the order they are declared (a pre-order walk of the scope
+// tree); compiler.collectLocals must list the local types in exactly that order, i.e.
+// walk the children once and descend into a nested block or loop at its own position.
+// The kinds that receive an ID and the kinds collected as locals must agree (inputs and
+// config values are parameters, not locals).
+func (c *c19) checkLocalsOrder() {
+	fn := c.p.Func("arc/compiler", "", "collectLocals")
+	add := c.p.Func("arc/symbol", "Symbol", "Add")
+	if fn == nil {
+		c.r.Undecide("C19.R13: compiler.collectLocals not found")
+		return
+	}
+	// (a) one loop over the children; the recursive call is inside that loop
+	var loops []*ast.RangeStmt
+	inspectNoLit(fn.Body, func(x ast.Node) bool {
+		if rng, ok := x.(*ast.RangeStmt); ok {
+			loops = append(loops, rng)
+		}
+		return true
+	})
+	var rec []*ast.CallExpr
+	inspectNoLit(fn.Body, func(x ast.Node) bool {
+		if call, ok := x.(*ast.CallExpr); ok && IsFunc(Callee(fn, call), fn) {
+			rec = append(rec, call)
+		}
+		return true
+	})
+	collected := map[string]bool{}
+	var ownLoop *ast.RangeStmt
+	for _, l := range loops {
+		inspectNoLit(l.Body, func(x ast.Node) bool {
+			if cc, ok := x.(*ast.CaseClause); ok {
+				hasConv := false
+				inspectNoLit(cc, func(y ast.Node) bool {
+					if call, ok := y.(*ast.CallExpr); ok {
+						if f := CalleeFunc(fn, call); f != nil && f.Name() == "ConvertType" {
+							hasConv = true
+						}
+					}
+					return true
+				})
+				if hasConv {
+					ownLoop = l
+					for _, e := range cc.List {
+						if sel, ok := ast.Unparen(e).(*ast.SelectorExpr); ok {
+							collected[sel.Sel.Name] = true
+						}
+					}
+				}
+			}
+			return true
+		})
+	}
+	inOrder := ownLoop != nil && len(rec) > 0
+	for _, call := range rec {
+		if ownLoop == nil || !contains(ownLoop.Body, call) {
+			inOrder = false
+		}
+	}
+	c.r.Ob("C19.R13.locals", "collectLocals descends into a nested scope at its position among the children", posOf(c.p, fn.Decl), inOrder && len(loops) == 1,
+		fmt.Sprintf("%d loop(s), %d recursive call(s): local indices are assigned in declaration order (pre-order); collecting a scope's own variables before its nested scopes permutes the local type vector", len(loops), len(rec)))
+	// (b) kinds
+	if add == nil {
+		c.r.Undecide("C19.R13: symbol.Symbol.Add not found")
+		return
+	}
+	idKinds := map[string]bool{}
+	inspectNoLit(add.Body, func(x ast.Node) bool {
+		ifs, ok := x.(*ast.IfStmt)
+		if !ok {
+			return true
+		}
+		assignsID := false
+		inspectNoLit(ifs.Body, func(y ast.Node) bool {
+			if as, ok := y.(*ast.AssignStmt); ok {
+				for _, l := range as.Lhs {
+					if sel, ok := ast.Unparen(l).(*ast.SelectorExpr); ok && sel.Sel.Name == "ID" {
+						assignsID = true
+					}
+				}
+			}
+			return true
+		})
+		if !assignsID {
+			return true
+		}
+		for _, d := range disjuncts(ifs.Cond) {
+			if be, ok := ast.Unparen(d).(*ast.BinaryExpr); ok {
+				if id, ok := ast.Unparen(be.Y).(*ast.Ident); ok && strings.HasPrefix(id.Name, "Kind") {
+					idKinds[id.Name] = true
+				}
+			}
+		}
+		return true
+	})
+	params := map[string]string{"KindInput": "function parameter", "KindConfig": "function parameter"}
+	var missing, extra []string
+	for k := range idKinds {
+		if !collected[k] {
+			if _, ok := params[k]; !ok {
+				missing = append(missing, k)
+			}
+		}
+	}
+	for k := range collected {
+		if !idKinds[k] {
+			extra = append(extra, k)
+		}
+	}
+	sort.Strings(missing)
+	sort.Strings(extra)
+	c.r.Ob("C19.R13.locals", "the kinds numbered by Symbol.Add and the kinds declared as locals agree", posOf(c.p, fn.Decl), len(missing) == 0 && len(extra) == 0 && len(idKinds) >= 4,
+		fmt.Sprintf("numbered but not declared: %v; declared but not numbered: %v", missing, extra))
 }
 
 // checkLoopHeaderReads decides C19.R12: the bounds of a range loop are evaluated once.
